@@ -216,7 +216,72 @@ def standin_key_algebra(tier, seed):
                 fails.append(dict(args=dict(key=repr(k), key_map=m), failed="key-mapping", clause="mapping must rename the name only, keeping the path"))
         if cirq.MeasurementKey.parse_serialized(str(k)) != k:
             fails.append(dict(args=dict(key=repr(k)), failed="parse", clause="parse_serialized(str(k)) != k"))
+    # every kind of operation that WRITES a key follows the key's own laws (the key it declares is the mapped / prefixed key)
     q = cirq.LineQubit.range(3)
+    writers = {
+        "measure": lambda k: cirq.measure(q[0], key=k),
+        "measure-tagged": lambda k: cirq.measure(q[0], key=k).with_tags("t"),
+        "pauli-measure": lambda k: cirq.measure_single_paulistring(cirq.X(q[0]) * cirq.Z(q[1]), key=k),
+        "kraus-channel": lambda k: cirq.KrausChannel.from_channel(cirq.bit_flip(0.5), key=k).on(q[0]),
+        "mixed-unitary-channel": lambda k: cirq.MixedUnitaryChannel.from_mixture(cirq.bit_flip(0.5), key=k).on(q[0]),
+        "sub-circuit": lambda k: cirq.CircuitOperation(cirq.FrozenCircuit(cirq.measure(q[0], key=k))),
+    }
+    for (kind, mk), k in itertools.product(writers.items(), keys):
+        try:
+            op = mk(k)
+        except (ValueError, TypeError):
+            continue
+        declared = lambda o: {str(x) for x in cirq.measurement_key_objs(o)}
+        if declared(op) != {str(k)}:
+            continue  # this writer does not accept keys with a path at construction
+        for m in ({"a": "c"}, {"b": "a"}, {"a": "b", "b": "a"}, {"zz": "a"}):
+            cases += 1
+            want = {str(cirq.with_measurement_key_mapping(k, m))}
+            got = declared(cirq.with_measurement_key_mapping(op, m))
+            if got != want:
+                fails.append(dict(args=dict(writer=kind, key=repr(k), key_map=m, got=sorted(got)), failed="writer-key-mapping", clause=f"the mapped operation declares {sorted(got)}, the mapped key is {sorted(want)}"))
+        for p1 in [("x",), ("x", "y")]:
+            cases += 1
+            want = {str(cirq.with_key_path_prefix(k, p1))}
+            got = declared(cirq.with_key_path_prefix(op, p1))
+            if got != want:
+                fails.append(dict(args=dict(writer=kind, key=repr(k), prefix=p1, got=sorted(got)), failed="writer-key-prefix", clause=f"the prefixed operation declares {sorted(got)}, the prefixed key is {sorted(want)}"))
+    # ... and every kind of operation that READS a key (all its control keys are mapped / prefixed, nested ones included)
+    import sympy
+    readers = {
+        "control": lambda k: cirq.X(q[0]).with_classical_controls(k),
+        "control-tagged": lambda k: cirq.X(q[0]).with_classical_controls(k).with_tags("t"),
+        "mask-control": lambda k: cirq.X(q[0]).with_classical_controls(cirq.BitMaskKeyCondition(k, bitmask=1, target_value=1)),
+        "controlled-sub-circuit": lambda k: cirq.CircuitOperation(cirq.FrozenCircuit(cirq.X(q[0]), cirq.H(q[1]))).with_classical_controls(k),
+        "sub-circuit-with-control": lambda k: cirq.CircuitOperation(cirq.FrozenCircuit(cirq.X(q[0]).with_classical_controls(k), cirq.H(q[1]))),
+    }
+    if hasattr(cirq, "If"):
+        readers["if"] = lambda k: cirq.If(k, cirq.X(q[0]))
+        readers["if-nested-control"] = lambda k: cirq.If(cirq.MeasurementKey("other"), cirq.X(q[0]).with_classical_controls(k), cirq.H(q[1]))
+        readers["if-body"] = lambda k: cirq.If(k, cirq.X(q[0]), cirq.H(q[1]))
+    for (kind, mk), k in itertools.product(readers.items(), keys):
+        try:
+            op = mk(k)
+        except (ValueError, TypeError):
+            continue
+        reads = lambda o: {str(x) for x in cirq.control_keys(o)}
+        extra = {"other"} if kind == "if-nested-control" else set()
+        if reads(op) != {str(k)} | extra:
+            continue
+        for m in ({"a": "c"}, {"b": "a"}, {"a": "b", "b": "a"}):
+            cases += 1
+            want = {str(cirq.with_measurement_key_mapping(k, m))} | extra
+            got = reads(cirq.with_measurement_key_mapping(op, m))
+            if got != want:
+                fails.append(dict(args=dict(reader=kind, key=repr(k), key_map=m, got=sorted(got)), failed="reader-key-mapping", clause=f"the mapped operation reads {sorted(got)}, the mapped keys are {sorted(want)}"))
+        # (a sub-circuit only records the prefix as its own location; keys it reads from outside are resolved against the enclosing
+        #  scopes when it is unrolled — compared by distributions in standin_subcircuits — so the prefix law is not stated for it)
+        for p1 in [("x",), ("x", "y")] if kind not in ("sub-circuit-with-control", "if-nested-control") else []:
+            cases += 1
+            want = {str(cirq.with_key_path_prefix(k, p1))} | {str(cirq.with_key_path_prefix(cirq.MeasurementKey(e), p1)) for e in extra}
+            got = reads(cirq.with_key_path_prefix(op, p1))
+            if got != want:
+                fails.append(dict(args=dict(reader=kind, key=repr(k), prefix=p1, got=sorted(got)), failed="reader-key-prefix", clause=f"the prefixed operation reads {sorted(got)}, the prefixed keys are {sorted(want)}"))
     base = cirq.CircuitOperation(cirq.FrozenCircuit(cirq.CNOT(q[0], q[1]), cirq.measure(q[2], key="a")))
     perms = [dict(zip(q, p)) for p in itertools.permutations(q)]
     for f, g in itertools.product(perms, repeat=2):
@@ -226,7 +291,7 @@ def standin_key_algebra(tier, seed):
         if lhs.mapped_circuit() != rhs.mapped_circuit():
             fails.append(dict(args=dict(f=repr(f), g=repr(g)), failed="qubit-map-composition", clause="mapping twice != mapping once with the composition"))
     return dict(function="cirq-core/cirq/value/measurement_key.py + circuit_operation.py[composition laws]", case="key-algebra",
-                bound="6 keys x 9 prefix pairs x 3 key maps; all 36 pairs of qubit permutations on 3 qubits (exhaustive)", cases=cases, distinct=cases,
+                bound="6 keys x 9 prefix pairs x 3 key maps; 6 kinds of key-writing and 8 kinds of key-reading operations x 6 keys x (key maps + prefixes); all 36 pairs of qubit permutations on 3 qubits (exhaustive)", cases=cases, distinct=cases,
                 failures=len(fails), exhaustive=True, _fails=fails[:4])
 standin_key_algebra.prop = "C12"
 
